@@ -114,6 +114,9 @@ type Graph struct {
 	Nodes   []*Node
 	Problem []string // constructs the builder could not model (=> undecided)
 	Cfg     Config
+	// CondSources: where each condition that becomes current comes from (origin of the value stored into the condition
+	// variable, resolved through the calling contexts), by position of the store.
+	CondSources map[token.Pos]*origin.O
 }
 
 type frame struct {
@@ -744,6 +747,10 @@ func (b *Builder) next(s state, seen map[string]bool) []*Node {
 			}
 			// whole-store to the loop variable of conditions: a new condition, reset the operation set
 			if al, ok := x.Addr.(*ssa.Alloc); ok && isConditionType(al.Type().Underlying().(*types.Pointer).Elem()) {
+				if b.g.CondSources == nil {
+					b.g.CondSources = map[token.Pos]*origin.O{}
+				}
+				b.g.CondSources[x.Pos()] = b.resolver(s.fr, s.env).Of(x.Val, s.fr.of, x)
 				ne := s.env.clone()
 				ne.ops[s.fr.id] = b.allOpsMask()
 				ne.phis["iterstart"] = 1
